@@ -1,4 +1,4 @@
-CONSTANTS Threads = {1}  InIds = {"a", "b", "c"}  OutIds = {"y1", "y2", "y3"}  MaxLen = 3  ReqsPerThread = 3  CheckDupsFirst = TRUE
+CONSTANTS Threads = {1}  InIds = {"a", "b", "c"}  OutIds = {"y1", "y2", "y3"}  MaxLen = 3  ReqsPerThread = 3  MatchMode = "sorted_equal"
 INIT Init
 NEXT Next
 INVARIANT Emit
